@@ -24,7 +24,11 @@ func (e *Engine) concretizeOperand(st *State, v ssa.Value, t *Term, lo, hi int, 
 		e.solver.SyncTo(st.pcList())
 		excl := rng
 		complete := false
-		for k := 0; k < 24; k++ {
+		enumCap := 24
+		if v, ok := e.params["ENUMCAP"]; ok && v > 0 {
+			enumCap = v
+		}
+		for k := 0; k < enumCap; k++ {
 			r, m := e.solver.CheckModel(excl, e.ctx.termVars(t))
 			if r == Unsat {
 				complete = true
@@ -39,7 +43,7 @@ func (e *Engine) concretizeOperand(st *State, v ssa.Value, t *Term, lo, hi int, 
 			excl = c.And(excl, c.Not(c.Eq(t, c.BV(t.w, uint64(v)))))
 		}
 		if !complete {
-			e.unsupported(st, fmt.Sprintf("symbolic index/length in %d..%d has more than 24 feasible values", lo, hi))
+			e.unsupported(st, fmt.Sprintf("symbolic index/length in %d..%d has more than %d feasible values", lo, hi, enumCap))
 		}
 		sort.Ints(cand)
 	} else {
